@@ -174,7 +174,16 @@ func runC10(c *Ctx) {
 				}
 			}
 		})
-		if len(allocs) == 0 {
+		allLib := map[*ssa.Function]bool{}
+		for _, lf := range c.P.AllLibFuncs() {
+			allLib[lf] = true
+		}
+		if contextualHelper(c.P, fn, allLib) {
+			// a new constructor helper: its construction sites are judged at every call site
+			continue
+		}
+		callsHelper := len(helperGroup(c.P, fn)) > 1+len(fn.AnonFuncs)
+		if len(allocs) == 0 && !callsHelper {
 			continue
 		}
 		if fn.Pkg == nil || fn.Pkg.Pkg.Path() != pkgPath("rules") {
@@ -189,9 +198,35 @@ func runC10(c *Ctx) {
 		c.Fn(FuncName(fn))
 		ps := g.ParamExprs(fn)
 		isHandler := len(keysOf[fn]) > 0
+		type actAlloc struct {
+			act *Summary
+			al  *ssa.Alloc
+		}
+		var sites []actAlloc
 		for _, al := range allocs {
-			obj := s.Env[al]
-			site := rwSite{fn: fn, alloc: al, obj: obj, fields: map[string]*E{}, cond: s.RC[al.Block()], pos: al.Pos()}
+			sites = append(sites, actAlloc{s, al})
+		}
+		for _, sub := range g.Subs {
+			if !c.P.IsNewHelper(sub.Fn) {
+				continue
+			}
+			eachInstr(sub.Fn, func(_ *ssa.BasicBlock, in ssa.Instruction) {
+				if al, ok := in.(*ssa.Alloc); ok {
+					if p, ok := al.Type().(*types.Pointer); ok {
+						if n, ok := p.Elem().(*types.Named); ok && n == rwT {
+							sites = append(sites, actAlloc{sub, al})
+						}
+					}
+				}
+			})
+		}
+		for _, sa := range sites {
+			al := sa.al
+			obj := sa.act.Env[al]
+			if obj == nil {
+				continue
+			}
+			site := rwSite{fn: fn, alloc: al, obj: obj, fields: map[string]*E{}, cond: sa.act.RC[al.Block()], pos: al.Pos()}
 			for _, ef := range s.Effects {
 				if ef.Kind == "store" && ef.Addr.Op == "faddr" && ef.Addr.Args[0] == obj {
 					site.fields[ef.Addr.Aux] = ef.Val
